@@ -504,7 +504,9 @@ def check_naive(ctx: Ctx, only: Optional[str] = "NaiveThresholdMatching"):
                     v = None
                 ctx.decide("R03.4a", f, c, construct, "path condition implies: score meets the threshold in the metric's direction (inclusive)", v, {"row": w, "path_condition": pc_txt} if w else {"path_condition": pc_txt})
             else:
-                ctx.violated("R03.4a", f, c, construct, "assignment is not guarded by a comparison of the candidate's score with the matching threshold", {"path_condition": pc_txt})
+                # no modelled score/threshold comparison on the path: a definite violation only if the
+                # path condition contains nothing unmodelled that could be that comparison in disguise
+                ctx.decide("R03.4a", f, c, construct, "assignment is guarded by a comparison of the candidate's score with the matching threshold", None if form.opaque else False, {"path_condition": pc_txt, "unmodelled_conditions": sorted(form.opaque.values())[:4]})
             # (b) prediction not yet assigned (callee's raise condition excluded => terminates with a result)
             v, w = implication(form, prem, lambda a: not a["cp"], atoms.feasible)
             if stale and v is False:
